@@ -50,6 +50,9 @@ CLAIMED["C06"]=("Bounded symbolic execution of every built-in and native propert
 CLAIMED["C19"]=("Bounded symbolic execution of the real evaluator over the shared world as one inductive step: everything reachable from the constants environment is fingerprinted, a history program from a 14-program family runs in a fresh scope, and a solver-chosen later program must give the same value, error message and stack trace as before while the fingerprint stays equal; plus the real runscript.setup + runTest on solver-chosen pairs of test files (no variable leaks to the next file).",
         TRUST,
         "SMT-decided bounded symbolic execution of go/ssa (z3); inductive step over a fingerprint of shared state")
+CLAIMED["C02"]=("Bounded symbolic execution of the real yyParse (generated LALR tables + grammar actions) with the operator tokens as solver choices: for all ordered pairs and triples of the 23 infix operators, all operand shapes, and 25 mixed templates (prefix, chains, calls, indexing, assignments, jump statements, if/else), z3 discharges on every feasible token sequence that the expression as written and the expression with the parentheses implied by the documented table print the same AST. Natively replayed paths go through the real regex lexer.",
+        TRUST,
+        "SMT-decided bounded symbolic execution of go/ssa (z3); token sequences enumerated by solver-decided choices")
 NA={
 }
 DEFAULT_NA="check under construction in this session (engine exists; harness not yet registered)"
